@@ -7,7 +7,7 @@ usage: dev/seeded.py confirm [ids...]   # confirm in a scratch worktree, store u
 """
 import glob, json, os, re, shutil, subprocess, sys, time
 
-SEED = "/tmp/seed"
+SEED = os.environ.get("SEED_DIR", "/tmp/seed2")
 OUT = "/verif/seeded"
 WT = "/tmp/seedchk"
 ENV = dict(os.environ, GOFLAGS="-mod=mod", GOPROXY="off")
@@ -100,42 +100,46 @@ def confirm(ids):
 
 
 def detect(ids):
+    """Runs ./check <prop> quick against a scratch worktree of /repo with the seeded
+    patch applied (VERIF_REPO); /repo itself and /verif/evidence are not touched."""
+    DET = "/tmp/seeddet"
+    sh(f"git -C /repo worktree remove --force {DET}")
+    rc, o = sh(f"git -C /repo worktree add --detach {DET}")
+    if rc != 0:
+        print(o)
+        sys.exit(1)
     rows = []
-    for dest in sorted(glob.glob(f"{OUT}/C*")):
-        sid = os.path.basename(dest)
-        prop = sid.split("-")[0]
-        if ids and sid not in ids and prop not in ids:
-            continue
-        meta = json.load(open(os.path.join(dest, "meta.json")))
-        rc, o = sh("git status --short", cwd="/repo")
-        if o.strip():
-            print("refusing: /repo has local changes")
-            sys.exit(1)
-        reg = json.load(open("/verif/harness/registry.json"))
-        if prop not in reg:
-            meta["detection"] = {"check": None, "result": "property not claimed"}
-            json.dump(meta, open(os.path.join(dest, "meta.json"), "w"), indent=1)
-            continue
-        rc, o = sh(f"git apply {dest}/patch.diff", cwd="/repo")
-        if rc != 0:
-            print(sid, "patch no longer applies")
-            continue
-        try:
+    env = dict(ENV, VERIF_REPO=DET, VERIF_EVIDENCE_DIR="/verif/work/evidence_seeded")
+    try:
+        for dest in sorted(glob.glob(f"{OUT}/C*")):
+            sid = os.path.basename(dest)
+            prop = sid.split("-")[0]
+            if ids and sid not in ids and prop not in ids:
+                continue
+            meta = json.load(open(os.path.join(dest, "meta.json")))
+            reg = json.load(open("/verif/harness/registry.json"))
+            if prop not in reg:
+                meta["detection"] = {"check": None, "result": "property not claimed"}
+                json.dump(meta, open(os.path.join(dest, "meta.json"), "w"), indent=1)
+                continue
+            sh("git checkout -- . && git clean -fdq", cwd=DET)
+            rc, o = sh(f"git apply {dest}/patch.diff", cwd=DET)
+            if rc != 0:
+                print(sid, "patch no longer applies")
+                continue
             t0 = time.time()
-            rc, o = sh(f"./check {prop} quick", cwd="/verif", timeout=3600)
+            p = subprocess.run(f"./check {prop} quick", shell=True, cwd="/verif", env=env, capture_output=True, text=True, timeout=7200)
+            rc, o = p.returncode, p.stdout + p.stderr
             viol = [l for l in o.splitlines() if l.startswith("VIOLATION")]
             inc = [l for l in o.splitlines() if l.startswith("INCONCLUSIVE")]
             res = "DETECTED" if rc == 1 and viol else ("INCONCLUSIVE" if rc == 2 else "MISSED")
-            meta["detection"] = {"check": f"./check {prop} quick", "exit": rc, "result": res, "wall_s": round(time.time() - t0, 1),
+            meta["detection"] = {"check": f"./check {prop} quick (scratch worktree with the patch, VERIF_REPO)", "exit": rc, "result": res, "wall_s": round(time.time() - t0, 1),
                                  "first_violation": (viol[0][:300] if viol else None), "first_inconclusive": (inc[0][:300] if inc else None)}
-            print(sid, res, f"exit={rc}", (viol[0][:160] if viol else (inc[0][:160] if inc else "")))
-        finally:
-            sh("git checkout -- .", cwd="/repo")
-        json.dump(meta, open(os.path.join(dest, "meta.json"), "w"), indent=1)
-        rows.append((sid, meta["detection"]["result"]))
-    # restore evidence of the unchanged tree for the properties touched
-    for prop in sorted({s.split("-")[0] for s, _ in rows}):
-        sh(f"./check {prop} quick", cwd="/verif", timeout=3600)
+            print(sid, res, f"exit={rc}", (viol[0][:160] if viol else (inc[0][:160] if inc else "")), flush=True)
+            json.dump(meta, open(os.path.join(dest, "meta.json"), "w"), indent=1)
+            rows.append((sid, res))
+    finally:
+        sh(f"git -C /repo worktree remove --force {DET}")
     print("summary:", rows)
 
 
